@@ -140,8 +140,18 @@ func c07main(c *Ctx) {
 		// chain
 		chain := []*slog.Entry{newRoot("root", f, w, slog.AlwaysLevel)}
 		own := make([][]srcKV, depth)
+		parentCtxKeys := false
 		for d := 1; d < depth; d++ {
 			ch := chain[d-1].New(fmt.Sprintf("c%d", d))
+			if d == depth-1 && r.P(20) {
+				// the logger is derived with WithContextKeys from a parent that has context keys of its own (and the
+				// context will hold values under them): the child looks up ITS keys
+				parentCtxKeys = true
+				chain[d-1].SetContextKeys("pk0", ctxKeyT{"pk1"})
+				ch = chain[d-1].WithContextKeys()
+				_ = chain[d-1].WithContextKeys("sibling-key")
+				c.R.Add("loggers_derived_with_WithContextKeys_from_a_parent_with_keys", 1)
+			}
 			ch.SetWriter(w).SetErrorWriter(w)
 			chain = append(chain, ch)
 		}
@@ -211,6 +221,10 @@ func c07main(c *Ctx) {
 		if r.P(50) || idx%emptyPoolsEvery == 0 {
 			nkeys = r.Range(1, 5)
 		}
+		if parentCtxKeys {
+			ctx = context.WithValue(context.WithValue(ctx, "pk0", "ctx#parent0"), ctxKeyT{"pk1"}, "ctx#parent1") //nolint:staticcheck // string keys are what the library documents
+			ctx = context.WithValue(ctx, "sibling-key", "ctx#sibling")                                       //nolint:staticcheck
+		}
 		nilCtx := nkeys > 0 && r.P(10)
 		type regKey struct {
 			key  any
@@ -261,9 +275,23 @@ func c07main(c *Ctx) {
 		call := genSrcList(r, "call", ncall, ks, groups && !wide)
 		var args []any
 		for _, kv := range call {
-			if !kv.isG && (wide || r.P(40)) {
+			switch {
+			case !kv.isG && (wide || r.P(40)):
 				args = append(args, kv.key, kv.src)
-			} else {
+			case f == FJSON && kv.isG && len(kv.grp) == 1 && !kv.grp[0].isG && r.Bool():
+				// a group of one member given as a pair whose VALUE is an attribute: "key", Attr (JSON only: the text
+				// formats have no spelling for an attribute in value position, see DESIGN section 6)
+				args = append(args, kv.key, kv.grp[0].attr())
+				c.R.Add("pairs_whose_value_is_an_attribute", 1)
+			case f == FJSON && kv.isG && len(kv.grp) > 1 && r.P(30):
+				// ... or whose value is a list of attributes: "key", Attrs{...}
+				var as slog.Attrs
+				for _, it := range kv.grp {
+					as = append(as, it.attr())
+				}
+				args = append(args, kv.key, as)
+				c.R.Add("pairs_whose_value_is_an_attribute", 1)
+			default:
 				args = append(args, kv.attr())
 			}
 		}
